@@ -10,3 +10,9 @@ import NLV.Props.C18
 #print axioms NLV.C18.task_quiescent_complete
 #print axioms NLV.C18.callback_exception_reraised_raising
 #print axioms NLV.C18.close_returns_after_all_raising
+#print axioms NLV.C18T.close_waits
+#print axioms NLV.C18T.closed_stays
+#print axioms NLV.C18T.no_trace_starts_after_close
+#print axioms NLV.C18T.after_close_only_a_trace_end
+#print axioms NLV.C18T.evInv_step
+#print axioms NLV.C18T.every_started_trace_ended
